@@ -56,9 +56,9 @@ check('C10', 'other',
       'spec evaluator incl. hierarchical instance semantics is the oracle; substitute / resolve / copy / pickle bounded only',
       'contract-based deductive verification of the fork-elimination step on an object heap + bounded runtime contracts with z3 equivalence per instance', 'DESIGN.md 5-C10')
 check('C19', 'other',
-      'Finite configuration space enumerated completely: postcondition of TechLib.__init__ on the five library texts (names expand, pin tables, implementation ports) and datasheet function of every family cell on all input combinations (truth tables by the real LogicSim).',
-      'spec.datasheet is the oracle; runtime-evaluated contract, exhaustive, not a symbolic proof',
-      'exhaustive evaluation of a postcondition over a finite configuration space', 'DESIGN.md 5-C19')
+      'Proved (unbounded, one phase): the pin-numbering loop of TechLib.__init__ lists every port of the implementation circuit exactly once, with its direction and its position among the ports of that direction (inputs and outputs numbered 0..n-1 in declaration order), for any sequence of ports. Finite configuration space enumerated completely: postcondition of TechLib.__init__ on the five library texts (names expand, pin tables, implementation ports) and datasheet function of every family cell on all input combinations (truth tables by the real LogicSim).',
+      'spec.datasheet is the oracle for the cell functions; that part is a runtime-evaluated contract, exhaustive, not a symbolic proof; text splitting, bench.parse and brace expansion are outside the VC generator',
+      'contract-based deductive verification (ast->z3 VCs) of the pin-numbering loop (quantified invariant, ghost counts) + exhaustive evaluation of the postcondition over a finite configuration space', 'DESIGN.md 5-C19')
 check('C11', 'other',
       'Proved (unbounded, one step): BenchTransformer.assignment adds exactly the described cell, its output fork and one input line per driver in order, keeping the circuit well-formed (constructors inlined on the object heap). Bounded round-trip contract with spec-side Verilog/bench printers: port order, function for all valuations (enumerated), branch forks only insert forks, bench == Verilog; over generated netlists of all five libraries and many renderings.',
       'the LALR grammars, the Verilog transformer and the pin tables are outside the VC generator; meaning of the parsed circuit judged by the spec evaluator',
